@@ -32,6 +32,8 @@ structure StmtResult where
   affected : Nat := 0
   /-- see `St.tieSensitive` -/
   tieSensitive : Bool := false
+  /-- COMMIT of a failed transaction block: the command tag is ROLLBACK -/
+  rolledBack : Bool := false
   deriving Inhabited
 
 def freshSnapshot (w : World) (xid : Nat) : Snapshot :=
@@ -111,7 +113,7 @@ def execTop (w : World) (sid : Nat) (stmt : Stmt) (retry : Bool) (now : Option I
     else ((beginTx w sess true).1, .ok {})
   | .commit =>
     if !sess.explicit then (w, .ok {})   -- WARNING: there is no transaction in progress
-    else if sess.aborted then (rollbackTx w sess, .ok {})   -- COMMIT of a failed transaction rolls back
+    else if sess.aborted then (rollbackTx w sess, .ok { rolledBack := true })   -- COMMIT of a failed transaction rolls back
     else (commitTx w sess, .ok {})
   | .rollback =>
     if sess.xid == 0 then (w, .ok {}) else (rollbackTx w sess, .ok {})
@@ -227,7 +229,7 @@ partial def valueToDump : Value → Json
   | .ts us =>
     let s := tsFormat us "T"
     -- pad the fraction to 6 digits
-    let (base, frac) := match s.splitOn "." with
+    let (base, frac) := match splitStr s "." with
       | [a, b] => (a, b)
       | _ => (s, "")
     Json.str (base ++ "." ++ frac ++ String.ofList (List.replicate (6 - frac.length) '0') ++ "Z")
